@@ -234,9 +234,16 @@ func execC20(x *Ctx, sc *wire.Scenario) *wire.Result {
 		if w := waitAfter(ref, k); w != nil && w.Local == "menu-select" {
 			withComp = true
 		}
+		// a completion key typed while the watcher's report is still in flight is processed together with it
+		for j := k; j < k+sc.Plan.TypeWithReport && j < len(sc.Script); j++ {
+			if strings.Contains(sc.Script[j].Cmd, "complet") {
+				withComp = true
+			}
+		}
 	}
-	if withComp {
-		window = strings.Replace(window, "while-", "with-completions-while-", 1)
+	if withComp && window == "while-waiting-for-input" {
+		// (while an argument key is being read the failure is that window's, with or without completions)
+		window = "with-completions-while-waiting-for-input"
 	}
 	burst := false // several signals at once: the watcher runs again while the first redisplay's consequences are processed
 	for _, d := range sc.Plan.Disturb {
